@@ -9,5 +9,32 @@ if ctx.replay:
 vlib.proof_phase(ctx)
 res = coresuite.present_suite(ctx.tier, ctx.seed)
 cov = coresuite.summarize_groups(ctx, res, 'presentations of one inheritance graph')
+
+# the registration front end: real use_classes / class_declaration statements on real C++ hierarchies (virtual and
+# non-virtual inheritance, abstract classes); the records they push are compared with Model/UseClasses.v evaluated
+# inside Coq (vm_compute on a generated cases file) and with a direct computation
+sys.path.insert(0, os.path.join(vlib.VERIF, 'harness', 'h2'))
+import gen_useclasses as guc
+rng = vlib.Rng(ctx.seed * 2654435761 % (1 << 31) + 8)
+scs = [guc.gen_scenario(rng, i) for i in range(10 if ctx.tier == 'quick' else 120)]
+progs = guc.run_programs(scs)
+cq, cqerr = guc.coq_records(scs)
+if cq is None:
+    ctx.broken.append('Model/UseClasses.v could not be evaluated on the scenarios: ' + cqerr[-300:])
+uc_fail = 0; uc_diff = 0
+for sc in scs:
+    exp = guc.expected_records(sc); got = progs.get(sc['name'])
+    if got != exp:
+        uc_fail += 1
+        if uc_fail <= 2:
+            ctx.violation('use_classes / class_declaration registered %s, expected one record per listed class with exactly its listed bases: %s'
+                          % (str(got)[:300], str(exp)[:300]), {'scenario': sc, 'program': guc.program_text(sc)})
+    exp_use = sorted((c, b) for (c, a, b) in guc.expected_records({**sc, 'stmts': [s for s in sc['stmts'] if s[0] == 'use']}))
+    if cq is not None and cq.get(sc['name']) != exp_use:
+        uc_diff += 1
+        if uc_diff <= 2:
+            ctx.broken.append('correspondence: Model/UseClasses.v evaluated in Coq gives %s for scenario %s, the direct computation %s' % (str(cq.get(sc['name']))[:200], sc['name'], str(exp_use)[:200]))
+cov['use_classes_programs'] = len(scs); cov['use_classes_failures'] = uc_fail
+cov['use_classes_samples'] = [{'stmts': sc['stmts'], 'parents': sc['parents']} for sc in scs[:2]]
 vlib.finish(ctx, cov, assumptions=['the acceptance relation, dispatch, next and the cell validator are observed on the real library under 6-8 presentations of each generated graph and compared across presentations and with the graph itself',
                                    'registries are acyclic (C++ inheritance is)'])
